@@ -6,7 +6,7 @@ import torch
 from rich import print
 from torch.nn.common_types import _size_2_t
 from torch.nn.modules.utils import _pair
-from torch.nn.functional import gumbel_softmax, softmax
+from torch.nn.functional import softmax
 from itertools import product
 
 from ..functional import (
@@ -14,6 +14,7 @@ from ..functional import (
     bin_op_s,
     get_unique_connections,
     gumbel_sigmoid,
+    gumbel_softmax,
     soft_raw,
     soft_walsh,
     hard_raw,
